@@ -550,6 +550,12 @@ func schedTask(raw json.RawMessage) TaskResult {
 		return res
 	}
 	if err != nil {
+		if v, ok := err.(*Violation); ok {
+			// an operation of the scenario's history misbehaves before any schedule is explored
+			res.Evals = 1
+			res.Viols = append(res.Viols, fmt.Sprintf("%s hist=%d: while building the scenario: %s", a.Scenario, a.Hist, v.Msg))
+			return res
+		}
 		res.Herr = err.Error()
 		return res
 	}
